@@ -54,6 +54,14 @@ def gen_cases(tier, seed):
                 c["opts"]["object_encoding"].update({"fx": "utf8", "fy": "bytes"})
             c["opts"]["stats"] = True
             c["fixed_text"] = True
+        if i % 17 == 8 and not isinstance(c["opts"].get("object_encoding"), str):
+            # values of several kilobytes: a bound is the whole value, however long
+            # (no missing values: an object column holding None gets no bounds at all from this writer)
+            c["frame"]["cols"].append({"name": "huge", "kind": ["ostr", "str"][i % 2], "nulls": "none", "vals": "huge"})
+            if isinstance(c["opts"].get("object_encoding"), dict):
+                c["opts"]["object_encoding"]["huge"] = "utf8"
+            c["opts"]["stats"] = True
+            c["huge_values"] = True
         if i % 11 == 5 and not isinstance(c["opts"].get("object_encoding"), str):
             # a JSON column whose Python values are orderable
             c["frame"]["cols"].append({"name": "jl", "kind": "json", "nulls": "p20", "vals": "lists"})
@@ -152,6 +160,8 @@ def run_case(case):
                     counters["null_counts_compared"] = counters.get("null_counts_compared", 0) + 1
                     if st["null_count"] != ch["nulls"]:
                         res["failures"].append({"kind": "null_count_wrong", "stat": st["null_count"], "actual": ch["nulls"], **ctx})
+                if name == "huge" and case.get("huge_values"):
+                    counters["chunks_of_kilobyte_values_examined"] = counters.get("chunks_of_kilobyte_values_examined", 0) + 1
                 if ptype == "FIXED_LEN_BYTE_ARRAY" and case.get("fixed_text"):
                     counters["fixed_width_text_chunks_examined"] = counters.get("fixed_width_text_chunks_examined", 0) + 1
                 if kinds.get(name) == "json" and case.get("json_lists"):
@@ -345,4 +355,4 @@ def same_logical(want, got):
 
 
 def required(tier):
-    return {"chunks_with_minmax": 1500, "null_counts_compared": 1500, "api_stats_compared": 1500, "sorted_columns_checked": 50, "statistics_after_edit_compared": 20, "statistics_after_append_compared": 100, "sliced_statistics_compared": 300, "orderable_json_chunks_examined": 20, "fixed_width_text_chunks_examined": 20}
+    return {"chunks_with_minmax": 1500, "null_counts_compared": 1500, "api_stats_compared": 1500, "sorted_columns_checked": 50, "statistics_after_edit_compared": 20, "statistics_after_append_compared": 100, "sliced_statistics_compared": 300, "orderable_json_chunks_examined": 20, "fixed_width_text_chunks_examined": 20, "chunks_of_kilobyte_values_examined": 10}
